@@ -646,6 +646,13 @@ def step (st : St) (line : String) : St × String :=
             match getSlot st.encs i with
             | some (x, _) => decide (Shape.enc v = Shape.enc (if cfg == "p256" then x.toWire zeroLeavesP256 else x.toWire zeroLeavesC25519))
             | none => false))
+        | "hdr", 'H' => (Wire.deserialize (Wire.header c) bs).map (fun v => (Wire.lenHeader c v, Wire.encHeader v,
+            match getSlot st.hdrs i with
+            | some (x, _) =>
+              -- a header altered outside the library has no layout of its own in the model
+              (match x.mdata with | some sl => sl.tamper != .intact | none => false) ||
+              decide (Shape.header v = Shape.header (if cfg == "p256" then x.toWire zeroLeavesP256 else x.toWire zeroLeavesC25519))
+            | none => false))
         | "struct", 'S' => (Wire.deserialize Wire.struct_ bs).map (fun v => (Wire.lenStruct v, Wire.encStruct v,
             match getSlot st.msks i with
             | some m => decide (Shape.struct_ v = Shape.struct_ m.structure_.toWire)
